@@ -60,6 +60,19 @@ check("C23", "mpisim", "exploration",
       "deterministic simulation: seeded schedule + send-semantics search over simulated MPI ranks, deadlock detector, reference = single-process sum",
       "DESIGN.md 3.1")
 
+check("C24", "crashsim", "fault_enumeration",
+      "For each sampled base run of the real JAX driver (iterations 2-4, MAP / 1 / 2 / varying samples, all sample modes, "
+      "constants, point estimates, jit on/off, resume=True or a path, callback, five write-buffer sizes) the journal of raw "
+      "file-system operations is recorded once; every kill point (before the first op, after every op, torn variants of "
+      "every write; thorough: chains of two kills) is reconstructed and the real driver is resumed on it; it must finish "
+      "and return (samples, state) bit-identical to the uninterrupted run. Crash points are enumerated exhaustively per "
+      "base run; base runs are sampled.",
+      "Trusted: SimFS's model of POSIX (open/O_TRUNC, write, rename atomic, unlink) and of CPython buffering; crash = kill "
+      "(completed raw ops durable, buffered data lost, in-flight write torn), not power loss; journal-cut shortcut "
+      "cross-validated in situ on a seeded sample per base run.",
+      "deterministic simulation: journalled in-memory FS, exhaustive kill-point enumeration + torn writes, real resume run vs uninterrupted reference",
+      "DESIGN.md 3.3")
+
 ENGINES = [
     {"name": "mpisim", "path": "verifsim/sched.py", "serves_properties": ["C22", "C23", "C26"],
      "kind_free_text": "baton-passing thread-ranks running real NIFTy code behind SimComm (fake mpi4py communicator); seeded policies, eager/rendezvous per message, deadlock detection, explicit replay"},
